@@ -37,9 +37,30 @@ fn build(cfg: &[u16]) -> Built {
         (K::Topic, 3),
         (K::Privmsg, 4),
         (K::NewUser, 4),
+        (K::CapPost, 4),
     ]);
     prof.oper_names.push(("op0".into(), "operpw0".into()));
     let mut setup = vec![];
+    if s.chance(50) {
+        c.channels.push(crate::cfgspec::ChanSpec { name: "#pre0".into(), topic: Some("configured".into()), flags: "nt".into(), operators: vec!["n1".into()], ..Default::default() });
+        prof.chans.push("#pre0".into());
+        for i in 1..users {
+            if s.chance(50) {
+                setup.push((format!("n{}", i), "JOIN #pre0".to_string()));
+            }
+        }
+    }
+    // members with multi-flag ranks in #c1 (granted by its founder n0)
+    setup.push(("n0".to_string(), "JOIN #c1".to_string()));
+    for i in 1..users {
+        if s.chance(60) {
+            setup.push((format!("n{}", i), "JOIN #c1".to_string()));
+            let flags = ["v", "h", "o", "ho", "hv", "ov", "ao", "hov", "a"][s.pick(9)];
+            for f in flags.chars() {
+                setup.push(("n0".to_string(), format!("MODE #c1 +{} n{}", f, i)));
+            }
+        }
+    }
     // n0 is an IRC operator (needed for KILL and WALLOPS probes) and owns an invite-only channel
     setup.push(("n0".to_string(), "OPER op0 operpw0".to_string()));
     setup.push(("n0".to_string(), "JOIN #inv".to_string()));
@@ -265,6 +286,16 @@ fn survivors_probe(eng: &mut Engine, b: &Built, vnick: &str, kind: &str, st: &mu
             let o = eng.line(*v, &l);
             if !o.discs.is_empty() {
                 return Err(viol_from(eng, &o, kind, &format!("probe `{}` by a survivor", l)));
+            }
+        }
+    }
+    // a message to every status of every channel still works (no stale rank-list entries)
+    if let Some(v) = regs.first().cloned() {
+        let chans: Vec<String> = eng.model.chans.keys().cloned().collect();
+        for ch in chans {
+            let o = eng.line(v, &format!("NOTICE ~&@%+{} :status probe", ch));
+            if !o.discs.is_empty() {
+                return Err(viol_from(eng, &o, kind, "NOTICE to all statuses of a channel after the end"));
             }
         }
     }
